@@ -6,6 +6,7 @@ import (
 	"fmt"
 	"os"
 	"runtime/debug"
+	"strconv"
 	"runtime/pprof"
 
 	"verifharness/checks"
@@ -65,6 +66,10 @@ func main() {
 		code := r.Finish()
 		pprof.StopCPUProfile()
 		os.Exit(code)
+	case "c19worker":
+		from, _ := strconv.Atoi(os.Args[3])
+		to, _ := strconv.Atoi(os.Args[4])
+		checks.C19Worker(os.Args[2], from, to, len(os.Args) > 5 && os.Args[5] == "thorough")
 	case "replay":
 		if len(os.Args) < 3 {
 			usage()
